@@ -513,14 +513,14 @@ def sq_cases(tier, rng):
                     yield sq_case(cfg, t, "d1")
             pairs = list(itertools.product(range(len(leaves)), repeat=2))
             if tier == "quick":
-                pairs = rng.sample(pairs, 36)
+                pairs = rng.sample(pairs, 28)
             for i, j in pairs:
                 elems = [leaves[i], leaves[j]]
                 if not valid_coll(kind, elems):
                     continue
                 yield sq_case(cfg, wrap(kind, elems), "d1")
     # nested templates
-    nrand = 360 if tier == "quick" else 6000
+    nrand = 300 if tier == "quick" else 6000
     maxd = 2 if tier == "quick" else 3
     for i in range(nrand):
         cfg = cfgs[i % 4]
